@@ -31,6 +31,40 @@ static const char *err_name(enum json_tokener_error e)
 	}
 }
 
+/* L op: the synthesised comma-decimal locale (tools/setup_extra.sh builds build/locale/xx_COMMA) installed
+ * process-wide (G) or for this thread only (T); C = back to the C locale.  A no-op when the locale is missing. */
+#include <locale.h>
+static locale_t comma_loc;
+static int loc_state;      /* 0 not tried, 1 ok, -1 unavailable */
+static void loc_setup(void)
+{
+	if (loc_state) return;
+	loc_state = -1;
+	if (!getenv("LOCPATH")) {
+		char exe[4096]; ssize_t n = readlink("/proc/self/exe", exe, sizeof exe - 32);
+		int cut = 0;
+		if (n <= 0) return;
+		exe[n] = 0;
+		while (n > 0 && cut < 2) { if (exe[--n] == '/') cut++; }
+		strcpy(exe + n, "/locale");
+		setenv("LOCPATH", exe, 1);
+	}
+	if (!setlocale(LC_ALL, "xx_COMMA")) return;
+	if (strcmp(localeconv()->decimal_point, ",") != 0) { setlocale(LC_ALL, "C"); return; }
+	setlocale(LC_ALL, "C");
+	comma_loc = newlocale(LC_ALL_MASK, "xx_COMMA", (locale_t)0);
+	if (comma_loc) loc_state = 1;
+}
+static void loc_mode(char m)
+{
+	loc_setup();
+	uselocale(LC_GLOBAL_LOCALE);
+	setlocale(LC_ALL, "C");
+	if (loc_state != 1) return;
+	if (m == 'G') setlocale(LC_ALL, "xx_COMMA");
+	else if (m == 'T') uselocale(comma_loc);
+}
+
 void run_case(char *rest)
 {
 	char *save = NULL, *d = strtok_r(rest, " ", &save), *fl = strtok_r(NULL, " ", &save), *ops = strtok_r(NULL, " ", &save);
@@ -148,9 +182,11 @@ void run_case(char *rest)
 			dead = 0;
 			printf("new"); break;
 		case 'F': json_tokener_set_flags(tok, atoi(tokp + 1)); printf("flags"); break;
+		case 'L': loc_mode(tokp[1]); printf("locale"); break;
 		default: printf("BADOP");
 		}
 	}
 	json_tokener_free(tok);
+	if (loc_state == 1) loc_mode('C');
 	if (xa_live != live0) printf(" | LEAK %ld", xa_live - live0);
 }
